@@ -31,10 +31,10 @@ PROPS = {
         "units": [
             regress("C02"),
             {"run": "^TestRefSelf$", "quick": 300, "thorough": 3000, "single": True},
-            {"run": "^TestC02$", "quick": 14000, "thorough": 60000},
+            {"run": "^TestC02$", "quick": 14000, "thorough": 40000},
             {"run": "^TestC02Repetitive$", "quick": 60, "thorough": 1000},
-            {"run": "^TestC02Named$", "quick": 5000, "thorough": 20000},
-            {"run": "^TestC02FileWriter$", "quick": 8000, "thorough": 80000},
+            {"run": "^TestC02Named$", "quick": 5000, "thorough": 12000},
+            {"run": "^TestC02FileWriter$", "quick": 8000, "thorough": 40000},
             {"fuzz": "FuzzC02", "fuzztime": "60s", "thorough_only": True, "run": "FuzzC02"},
         ],
     },
